@@ -122,37 +122,40 @@ def r2(ctx):
         want = expected_payload(resp.variant, resp)
         ok = all(tform(g) == tform(w) for g, w in zip(got, want))
         rep.check(ok, "%s->%s:lengths" % (variant, resp.variant), "body/key/extras = %s" % (tuple(short(w, 40) for w in want),), "response to %s (%s) announces body/key/extras lengths %s but the encoder writes %s: the client cannot find the next response" % (variant, resp.variant, tuple(short(g, 60) for g in got), tuple(short(w, 60) for w in want)), hb.loc())
-    # encoder table
-    for enc_name in ("encode_data", "write_data"):
-        eb = f.one(CODEC + "::" + enc_name)
+    # encoder table, through the two public entry points (robust to how the helpers behind them are organised)
+    ENC = "<" + CODEC + " as tokio_util::codec::Encoder<" + BRESP + ">>::encode"
+    for enc_name, enc_path, mkargs in (
+        ("encode_message", CODEC + "::encode_message", lambda msg: [P("self"), msg]),
+        ("Encoder::encode", ENC, lambda msg: [P("self"), msg, P("dst")]),
+    ):
+        eb = f.one(enc_path)
         rep.analysed(eb)
         ra = f.adts[BRESP]
         for vi, v in enumerate(ra["variants"]):
             msg = Struct(BRESP, v["name"], vi, OrderedDict([("0", P("r"))]))
             I = Interp(f, models=BUF_MODELS)
-            args = [P("self"), msg, P("dst")]
-            for pth in I.run(eb, args):
-                puts = [(e.extra["width"], e.extra["value"]) for e in pth.events if e.kind == "buf" and e.extra.get("op") == "put"]
+            for pth in I.run(eb, mkargs(msg)):
+                allputs = [(e.extra["width"], e.extra["value"]) for e in pth.events if e.kind == "buf" and e.extra.get("op") == "put"]
+                # the first nine puts are the header (C11.R3)
+                hdr_ok = len(allputs) >= 9 and allputs[0][1] == F(P("r"), "header", "magic") and allputs[8][1] == F(P("r"), "header", "cas")
+                puts = allputs[9:] if hdr_ok else allputs
                 kind = v["name"]
                 desc = [(short(w, 30), short(val, 40)) for w, val in puts]
-                key_nonempty = None
-                for c, truth, _s, _at in pth.state.pc:
-                    if "is_empty" in repr(c):
-                        key_nonempty = True
                 if kind == "Error":
                     ok = len(puts) == 1 and F(P("r"), "error") in atoms(puts[0][1])
                 elif kind in ("Get", "GetKey", "GetQuietly", "GetKeyQuietly"):
                     srcs = [("flags" if F(P("r"), "flags") in atoms(val) else "key" if F(P("r"), "key") in atoms(val) else "value" if F(P("r"), "value") in atoms(val) else "?") for _w, val in puts]
                     ok = srcs in (["flags", "key", "value"], ["flags", "value"]) and puts[0][0] == 4
-                    if srcs == ["flags", "value"] and enc_name == "write_data":
-                        ok = False
+                    if srcs == ["flags", "value"]:
+                        # the key may be skipped only under an explicit emptiness test of it
+                        ok = ok and any("is_empty" in repr(c) and F(P("r"), "key") in atoms(c) for c, _t, _s, _at in pth.state.pc)
                 elif kind in ("Increment", "Decrement"):
                     ok = len(puts) == 1 and puts[0][0] == 8 and puts[0][1] == F(P("r"), "value")
                 elif kind == "Version":
                     ok = len(puts) == 1 and F(P("r"), "version") in atoms(puts[0][1])
                 else:
                     ok = not puts
-                rep.check(ok, "%s:%s" % (enc_name, kind), "payload written for %s: %s" % (kind, desc), "%s writes %s after the header of a %s response (protocol: %s)" % (enc_name, desc, kind, {"Error": "the message text", "Version": "the version text"}.get(kind, "flags(4)+key+value for hits, 8-byte value for counters, nothing otherwise")), eb.loc())
+                rep.check(hdr_ok and ok, "%s:%s" % (enc_name, kind), "header, then payload for %s: %s" % (kind, desc), "%s writes %s after the header of a %s response (protocol: %s)" % (enc_name, desc, kind, {"Error": "the message text", "Version": "the version text"}.get(kind, "flags(4)+key+value for hits, 8-byte value for counters, nothing otherwise")), eb.loc())
     # key echoed exactly for get-key opcodes
     t = dispatch.predicate_table(ctx, "is_get_key_command")
     trues = sorted(op for op, vals in t.items() if vals == {1})
